@@ -18,7 +18,7 @@ PROP = 'C10'
 MANIFEST = dict(
     category='exploration', design_ref='DESIGN.md §3 C10',
     technique='exhaustive enumeration of installed-lexicon subsets x Wordnet selections x all entities x all navigation methods on the real API vs the reference model; all object pairs for ==/hash',
-    text='For every installable subset (in two installation orders) of {a:1, a:2 (same ids, other content), x:1 (extension: senses on base entries and base synsets), b:1 and c:1 sharing ILIs with a, c:1 with two synsets on one ILI and a proposed ILI} and every selection (default mode, each single lexicon, base+extension, both versions, lang, everything) every sense, word and synset is navigated: sense.word()/synset() must be the declared parent / referenced synset (by lexicon and id), the sense must be found again in word.senses() and synset.senses(), word.synsets(), synset.words() and synset.lemmas() must be the images of the sense lists in order; all objects reached by any route - including the ILI objects reached through Synset.ili and Wordnet.ilis(), a proposed ILI being an entity of its own - are compared pairwise: == and equal hashes iff same (kind, lexicon, id), and they must collapse accordingly in sets and dicts; synset.translate(lexicon=/lang=) must return exactly the synsets of the target lexicons with the same ILI (none for a missing or proposed ILI), sense and word translation must be its images, and translation must be symmetric.',
+    text='For every installable subset (in two installation orders) of {a:1, a:2 (same ids, other content), x:1 (extension: senses on base entries and base synsets), b:1 and c:1 sharing ILIs with a, c:1 with two synsets on one ILI and a proposed ILI} and every selection (default mode, each single lexicon, base+extension, both versions, lang, everything) every sense, word and synset is navigated: sense.word()/synset() must be the declared parent / referenced synset (by lexicon and id), the sense must be found again in word.senses() and synset.senses(), word.synsets(), synset.words() and synset.lemmas() must be the images of the sense lists in order; all objects reached by any route - including the ILI objects reached through Synset.ili and Wordnet.ilis(), a proposed ILI being an entity of its own - are compared pairwise: == and equal hashes iff same (kind, lexicon, id), and they must collapse accordingly in sets and dicts; synset.translate(lexicon=/lang=) must return exactly the synsets of the target lexicons with the same ILI (none for a missing or proposed ILI), sense and word translation must be its images, and translation must be symmetric. The extension has senses of all four shapes (base/own entry x base/own synset); query-then-add histories (everything navigated before each further lexicon arrives, no removal) go through both wn.add and wn.add_lexical_resource.',
     note='Tie-ranked sense orders (extension senses on base entries / base synsets) are compared as sets.',
 )
 
